@@ -134,5 +134,30 @@ EmitTwice == it.n = "iterator" \/      \* (an Iterator supplied as data is used 
             PrintT("CASE " \o ToJson([gen |-> "GenLoops", srcs |-> [twice |-> Unparse(Prog \o Prog)],
                                        data |-> it.data, shape |-> it.n \o ":" \o JoinNames(names) \o ":twice",
                                        expect |-> Expect(Run(Prog \o Prog, WithHelpers(it.data), EmptyScope, ""))]))
-EmitCase == res.k = "none" \/ (EmitOnce /\ EmitTwice)
+\* ---- the iterator protocol: an Iterator is a stateful source; a loop takes from it exactly the values it visits.  An iterator
+\* that outlives its loop (bound by let, or context data) and is looped over again continues where the first loop stopped.
+\* (Layer A's values are immutable, so these programs carry their expected text directly: it is what "visit what Next yields
+\* until it yields nil; break stops asking" means.)
+Raw(cs) == [k |-> "out", pieces |-> <<[k |-> "raw", s |-> cs]>>, log |-> <<>>]
+BrkAt(n) == Code(If(Bin("==", Id("v"), IntL(n)), <<Code(Brk)>>))
+Protocol ==
+  << [n |-> "reuse_after_break", data |-> EmptyScope, want |-> <<"[", "1", "]", "[", "2", "]", "|", "3", "4", "5", "6">>,
+      prog |-> <<Let("r", Call("range", <<IntL(1), IntL(6)>>)), Emit(For("", "v", Id("r"), <<Text(<<"[">>), Emit(Id("v")), Text(<<"]">>), BrkAt(2)>>)), Text(<<"|">>),
+                 Emit(For("", "v", Id("r"), <<Emit(Id("v"))>>))>>],
+     [n |-> "nested_same_iterator", data |-> EmptyScope, want |-> <<"[", "1", ":", "2", "3", "]", "[", "4", ":", "5", "]">>,
+      prog |-> <<Let("r", Call("range", <<IntL(1), IntL(5)>>)),
+                 Emit(For("", "w", Id("r"), <<Text(<<"[">>), Emit(Id("w")), Text(<<":">>), Emit(For("", "v", Id("r"), <<Emit(Id("v")), BrkAt(3)>>)), Text(<<"]">>)>>))>>],
+     [n |-> "data_iterator_after_break", data |-> [xs |-> Iter(Ints(3))], want |-> <<"1", "1", "|", "2", "2", "3", "3">>,
+      prog |-> <<Emit(For("", "v", Id("xs"), <<Emit(Id("v")), BrkAt(11)>>)), Text(<<"|">>), Emit(For("", "v", Id("xs"), <<Emit(Id("v"))>>))>>],
+     \* a Go map with int keys: the key name is bound to the KEY (an int: it can be computed with, compared, used as an index again)
+     [n |-> "int_keyed_map", data |-> [xs |-> [t |-> "imap", m |-> [one |-> I(7)]]], want |-> <<"2", ":", "7", ";", "t", "r", "u", "e", ";", "7">>,
+      prog |-> <<Emit(For("k", "v", Id("xs"), <<Emit(Bin("+", Id("k"), IntL(1))), Text(<<":">>), Emit(Id("v")), Text(<<";">>), Emit(Bin(">", Id("k"), IntL(0))), Text(<<";">>), Emit(Idx(Id("xs"), Id("k")))>>))>>],
+     [n |-> "continue_takes_next", data |-> EmptyScope, want |-> <<"1", "3", "|">>,
+      prog |-> <<Let("r", Call("until", <<IntL(4)>>)), Emit(For("", "v", Id("r"), <<Code(If(Bin("==", Id("v"), IntL(0)), <<Code(Cnt)>>)), Code(If(Bin("==", Id("v"), IntL(2)), <<Code(Cnt)>>)), Emit(Id("v"))>>)), Text(<<"|">>),
+                 Emit(For("", "v", Id("r"), <<Emit(Id("v"))>>))>>] >>
+EmitProtocol == ~(it.n = "lit0" /\ names = <<>> /\ res.k = "none") \/
+                \A i \in 1..Len(Protocol) :
+                   PrintT("CASE " \o ToJson([gen |-> "GenLoops", srcs |-> [loop |-> Unparse(Protocol[i].prog)], data |-> Protocol[i].data,
+                                              shape |-> "protocol:" \o Protocol[i].n, expect |-> Raw(Protocol[i].want)]))
+EmitCase == (res.k = "none" \/ (EmitOnce /\ EmitTwice)) /\ EmitProtocol
 =============================================================================
